@@ -29,10 +29,22 @@ RULE = ('random LP and MIP portfolios plus hand-made problems with boolean varia
         'make_soft_problem followed by a plain optimise on the same object; '
         'stream rob: generated portfolio problems and raw problems (LP and MIP, all solvers above) optimised with target=\'robust\' and 1-4 cost samples drawn from the seed as perturbations of the problem\'s own cost vector '
         '(coordinate-wise positive factors, dyadic shifts, sign flips, a mix of these, the own vector among them or not, and the control samples = [c, c]), every oracle applied with "better value" read as '
-        '"better worst case over the samples" (reference: independent epigraph LP/MILP with HiGHS on the same arrays) and the reported value held against -c.x with the problem\'s OWN c; non-trivial = solved problem with >= 1 restriction row binding or boolean variable; distinct by scenario hash')
+        '"better worst case over the samples" (reference: independent epigraph LP/MILP with HiGHS on the same arrays) and the reported value held against -c.x with the problem\'s OWN c; '
+        'stream again (comp/c03calls): the SAME problem object - hand-made, assembled from a generated portfolio, hand-made SplitOptimProblem, split set-up of a portfolio - is optimised 2-4 times and before each further call '
+        '(sometimes before the first) its data are changed as drawn from the seed: right-hand side replaced or edited in place, a matrix coefficient edited in place or the matrix replaced, a row type changed, a row added or removed, '
+        'a bound tightened / a variable pinned (in place or by a new array), a cost changed, a boolean flag set or taken back, no change (control), or the call is made on a deepcopy of the object; for split objects the edit goes to one interval, '
+        'preferably one without free variable; every call is judged by the oracles of the property against a deep copy of the object taken immediately before the call (problem AS IT IS at the time of the call); '
+        'stream split (comp/c03calls): split problems with pinned intervals (l == u), judged as the block sum of their intervals: hand-made from 2-4 raw problems, each interval free or pinned to a verified optimal point, a shifted point, '
+        'a fractional value of a variable flagged boolean or a corner of the box; portfolios of pinned assets (comp/fixedpf, balanced or not) split at their interval size; generated portfolios split in 2-3 intervals, solved, and set up '
+        'again through setup_split_optim_problem(fix_time_window=...) over whole intervals (prefix / subset / all; window as mask, index array or date) pinned to the earlier solution taken exactly, shifted on 1-3 coordinates, taken from a '
+        'make_soft_problem run or with a fractional value on a flagged variable; optionally an edit as in stream again before the first or a last call; '
+        'non-trivial = solved problem with >= 1 restriction row binding or boolean variable; distinct by scenario hash')
 ASSUMPTIONS = ['optimality of MIP answers is cross-checked against an independent HiGHS MILP run on the same arrays (validation, not certificate)',
                'infeasibility claims: certified exactly (Farkas multipliers found numerically, bound evaluated over the rationals, theorem infeasible_of_negative_bound) when the LP relaxation is infeasible; otherwise (infeasible only through integrality) cross-checked with HiGHS on the same arrays',
-               'feasibility tolerance 1e-6 (scaled), value tolerance 2e-6 relative']
+               'feasibility tolerance 1e-6 (scaled), value tolerance 2e-6 relative',
+               'streams again and split: "the problem at the time of the call" is a deep copy of the object taken immediately before optimize is entered; for a SplitOptimProblem it is the block-diagonal sum of the copied interval '
+               'problems (cost vector, bounds, rows and flags of the intervals, which is what SplitOptimProblem.optimize works on; theorems blockSum_feasible, blockSum_value, concatVec_block); failure reports and optimality of these '
+               'streams are decided by the verified HiGHS reference run on the arrays of the copy (no exact certificate)']
 PARTIAL = ['robust target: that the epigraph optimum is the minimum over the samples of -c_s.x is theorem robust_epigraph about the model\'s robustObjective, which the driver evaluates exactly at every returned vector; '
            'the epigraph rows and the objective actually handed to cvxpy are compared with the samples fed inside the harness (read back from the recorded cvxpy.Problem, exact), not through a model of the hand-off of its own - '
            'translate models the constraint set and the plain objective only; that Results.value of the robust target is -c.x with the problem\'s own c (not the optimised worst case) is the property\'s value clause, checked by the oracle value_identity',
@@ -40,9 +52,12 @@ PARTIAL = ['robust target: that the epigraph optimum is the minimum over the sam
            'given by the solver\'s multipliers of the epigraph rows (worst case(z) <= -(sum lam_s c_s).z <= bound for every feasible z); as for the plain target a bound that does not close is recorded (weak-certificate) and decided by the reference run']
 MODELLED = ['infinite bounds (the model\'s bounds are rationals): problems with infinite bounds are decided by the oracles on the real code only (feasibility, value identity, reference optimum)',
             'the numerical solvers (cvxpy back ends): not verified; every answer is checked for feasibility, value identity and by an exact Lagrangian certificate (LP)',
-            'the ortools interface is not installed in this sandbox and not exercised']
+            'the ortools interface is not installed in this sandbox and not exercised',
+            'streams again and split run the oracles on the real code only (no hand-off read-back, no Lagrangian certificate for these calls)']
 EXPLANATION = ('theorems: the hand-off means exactly Feasible/value; per-instance certificate for what the solver returns; robust target: same constraint set, epigraph rows read back '
-               'against the samples, worst case of the returned vector against an independent epigraph LP/MILP, reported value against -c.x of the problem\'s own cost vector')
+               'against the samples, worst case of the returned vector against an independent epigraph LP/MILP, reported value against -c.x of the problem\'s own cost vector; '
+               'streams again / split: the statement itself (bounds, rows by type, flags, value = -c.x, no better feasible point, failure only without feasible point) evaluated for every call of a call sequence on a live object '
+               'whose data change between the calls, and for split problems with pinned intervals as the block sum of the intervals')
 
 
 def scenarios(seed, tier):
@@ -84,6 +99,57 @@ def scenarios(seed, tier):
         mode = r3.choice(['same', 'scale', 'shift', 'flip', 'mixed', 'mixed'])
         s['robust'] = {'mode': mode, 'k': r3.randint(2 if mode == 'same' else 1, 4), 'own': r3.random() < 0.35, 'seed': r3.getrandbits(32)}
         yield 'rob%d' % i, s
+    # live objects (comp/c03calls): the same problem object optimised again after its data were changed (stream again), and split
+    # problems with pinned intervals, hand-made or set up from portfolios, also re-set-up with fix_time_window (stream split);
+    # own random streams again
+    tm = 6 if tier == 'quick' else 10
+    rnd4 = random.Random(seed * 7919 + 3 + 900007)
+    for i in range(n // 4):
+        yield 'again%d' % i, gen_again(random.Random(rnd4.getrandbits(48)), tm)
+    rnd5 = random.Random(seed * 7919 + 3 + 1100009)
+    for i in range(n // 4):
+        yield 'split%d' % i, gen_split(random.Random(rnd5.getrandbits(48)), tm)
+
+
+def _pf_scn(rnd, tmax):
+    return gen.gen_portfolio(rnd, tmax=tmax, tmin=min(4, tmax), tz_prob=0.05, market_prob=0.95 if rnd.random() < 0.8 else 0.3, max_assets=4)
+
+
+def gen_again(rnd, tmax):
+    """stream again: a live problem (hand-made, portfolio, hand-made split, portfolio split) and 2-4 calls with an edit of the
+    problem's data before each further call (sometimes before the first as well); the edits are drawn in run_live from 'seed'"""
+    from ..comp import c03calls as L
+    from ..comp import fixedpf as F
+    q = rnd.random()
+    if q < 0.3:
+        base = {'kind': 'raw', 'raw': gen_raw(rnd)}
+    elif q < 0.6:
+        base = {'kind': 'pf', 'scn': _pf_scn(rnd, tmax)}
+    elif q < 0.8:
+        base = L.gen_splitraw(rnd, gen_raw, pin_prob=0.3)
+    else:
+        base = {'kind': 'splitpf', 'scn': F.gen_case(rnd, tmax=tmax) if rnd.random() < 0.4 else _pf_scn(rnd, tmax), 'parts': rnd.choice([2, 2, 3])}
+    return {'stream': 'again', 'base': base, 'solver': rnd.choice([None, None, 'SCIPY', 'CLARABEL', 'SCIP']),
+            'calls': rnd.randint(2, 4), 'edit_first': rnd.random() < 0.25, 'seed': rnd.getrandbits(32)}
+
+
+def gen_split(rnd, tmax):
+    """stream split: split problems with pinned intervals - hand-made with drawn pins; portfolios of pinned assets (comp/fixedpf)
+    split at their interval size; generated portfolios split, solved, and set up again with fix_time_window over whole intervals"""
+    from ..comp import c03calls as L
+    from ..comp import fixedpf as F
+    q = rnd.random()
+    if q < 0.35:
+        base = L.gen_splitraw(rnd, gen_raw, pin_prob=0.5)
+        refix = False
+    elif q < 0.6:
+        base = {'kind': 'splitpf', 'scn': F.gen_case(rnd, tmax=tmax), 'parts': 2}
+        refix = rnd.random() < 0.4
+    else:
+        base = {'kind': 'splitpf', 'scn': _pf_scn(rnd, tmax), 'parts': rnd.choice([2, 2, 3])}
+        refix = True
+    return {'stream': 'split', 'base': base, 'solver': rnd.choice([None, None, 'SCIPY', 'CLARABEL', 'SCIP']), 'refix': refix,
+            'edit_first': rnd.random() < 0.2, 'edit_last': rnd.random() < 0.3, 'seed': rnd.getrandbits(32)}
 
 
 def robust_samples(c, rb, frozen):
@@ -290,6 +356,8 @@ def extract_handoff(recd, n, n_samples=0):
 
 
 def run_case(scn, drv):
+    if scn.get('stream') in ('again', 'split'):
+        return run_live(scn, drv)
     r = {'evaluated': 1, 'nontrivial': False, 'features': [], 'disagreements': [], 'violations': []}
     feats = r['features']
 
@@ -532,6 +600,188 @@ def run_case(scn, drv):
             else:
                 feats.append('weak-certificate')
     r['nontrivial'] = mip or len(op_snapshot.cType) > 0
+    return r
+
+
+def verified_reference(snap):
+    """reference() with its point verified: feasible for the problem and integral on the flags, else status 'unverified'"""
+    ref = reference(snap)
+    if ref['status'] == 'optimal':
+        w_, _ = pf.feasibility_violation(snap, ref['x'])
+        mm_ = snap.mapping[~snap.mapping.index.duplicated(keep='first')] if 'bool' in snap.mapping.columns else None
+        bl_ = [int(i) for i in mm_.index[mm_['bool'].fillna(False).astype(bool)]] if mm_ is not None else []
+        if w_ > 1e-6 or (bl_ and float(np.abs(ref['x'][bl_] - np.clip(np.round(ref['x'][bl_]), 0, 1)).max()) > 1e-6):
+            return {'status': 'unverified'}
+    return ref
+
+
+def judge_answer(snap, res, viol, feats):
+    """the statement of C03 for one call: `snap` is the problem as it was immediately before the call (comp/c03calls.snapshot;
+    split problems as the block sum of their intervals), `res` what optimize returned.  Returns True when the call was non-trivial."""
+    n = len(snap.c)
+    has_inf = not (np.all(np.isfinite(snap.l)) and np.all(np.isfinite(snap.u)))
+    facts = {'infinite_bounds': True} if has_inf else {}
+    ref = verified_reference(snap)
+    if isinstance(res, str):
+        feats.append('reported:' + res)
+        if res == 'not successful' and ref['status'] == 'unbounded':
+            viol('failure_means_infeasible', 'optimisation reported "not successful" but the problem is feasible and unbounded (HiGHS): e.g. %s is a feasible point' % (
+                np.round(ref['x'], 6).tolist() if ref.get('x') is not None else '?'), what='unbounded_reported_as_failure', **facts)
+        elif res == 'not successful' and ref['status'] == 'optimal':
+            viol('failure_means_infeasible', 'optimisation reported "not successful" but the problem as it is at the time of the call has a feasible point with value %.8g (HiGHS), e.g. %s'
+                 % (ref['value'], np.round(ref['x'], 6).tolist()[:12]), what='false_failure', **facts)
+        elif res == 'not successful':
+            feats.append('failure-confirmed:' + ref['status'])
+        return res == 'not successful'
+    feats.append('solved')
+    x = np.asarray(res.x, dtype=float).ravel()
+    if len(x) != n:
+        viol('returned_point_feasible', 'returned vector has %d entries, the problem has %d variables' % (len(x), n), what='length', **facts)
+        return True
+    V = float(res.value)
+    worst, what = pf.feasibility_violation(snap, x)
+    if worst > 1e-5:
+        viol('returned_point_feasible', 'success reported, but the returned vector violates %s of the problem as it is at the time of the call by %.3g (scaled)%s'
+             % (what, worst, '' if ref['status'] != 'infeasible' else '; the problem has no feasible point (HiGHS)'), what='infeasible_point', **facts)
+    m = snap.mapping
+    mm = m[~m.index.duplicated(keep='first')]
+    bl = [int(i) for i in mm.index[mm['bool'].fillna(False).astype(bool)]] if 'bool' in m.columns else []
+    if bl:
+        dv = np.abs(x[bl] - np.clip(np.round(x[bl]), 0, 1))
+        if float(dv.max()) > 1e-5:
+            viol('boolean_flags', 'success reported, but variable %d flagged boolean takes value %.6g' % (bl[int(np.argmax(dv))], x[bl][int(np.argmax(dv))]), what='non_boolean', **facts)
+    own = -float(np.dot(snap.c, x))
+    cmax = float(np.abs(snap.c).max()) if n else 0.0
+    tolv = 2e-6 * max(1.0, abs(V), cmax * max(1.0, float(np.abs(x).max()) if n else 1.0))
+    if abs(own - V) > tolv:
+        viol('value_identity', 'reported value %.8g but minus cost times the returned vector is %.8g' % (V, own), what='value', **facts)
+    if ref['status'] == 'optimal' and ref['value'] > V + 10 * tolv:
+        viol('optimality', 'a feasible point with value %.8g exists (HiGHS) but %.8g was reported as optimum' % (ref['value'], V), what='suboptimal', **facts)
+    elif ref['status'] == 'optimal' and V > ref['value'] + 10 * tolv and worst <= 1e-5:
+        feats.append('reference-solver-suboptimal')
+    return bool(bl) or len(snap.cType) > 0
+
+
+def build_live(base, feats):
+    """the live object of a scenario of the streams again / split: (problem object, record of the portfolio set-up or None)"""
+    from ..comp import c03calls as L
+    from .. import scen
+    kind = base['kind']
+    feats.append('base:' + kind)
+    if kind == 'raw':
+        return build_raw(base['raw']), None
+    if kind == 'splitraw':
+        def ref_point(op):
+            ref = verified_reference(L.snapshot(op))
+            return ref['x'] if ref['status'] == 'optimal' else None
+        for p_ in base['pins']:
+            feats.append('pin:%s' % p_)
+        return L.build_splitraw(base, build_raw, ref_point), None
+    scn = base['scn']
+    for a in scn['assets']:
+        feats.append('asset:' + a['type'])
+    if scn.get('stream') == 'fixedpf':
+        feats.append('portfolio-of-pinned-assets')
+    if kind == 'pf':
+        rec = pf.setup_mono(scn)
+        return rec['op'], rec
+    portf, tg, prices, nodes = scen.build(scn)
+    interval = scn.get('split_interval') or pf.split_interval(scn, tg, parts=base.get('parts', 2))
+    rec = pf.setup_split(scn, interval, objects=(portf, tg, prices))
+    return rec['op'], rec
+
+
+def run_live(scn, drv):
+    """streams again and split: a sequence of edits / re-set-ups / calls on a live problem object; every call is judged against the
+    snapshot of the object taken immediately before it"""
+    from ..comp import c03calls as L
+    r = {'evaluated': 1, 'nontrivial': False, 'features': ['stream:' + scn['stream']], 'disagreements': [], 'violations': []}
+    feats = r['features']
+    rnd = random.Random(scn['seed'])
+    try:
+        live, rec = build_live(scn['base'], feats)
+    except Exception as e:
+        feats.append('setup-error:' + impl.err_class(e))
+        return r
+    if scn['stream'] == 'again':
+        plan = (['edit'] if scn.get('edit_first') else []) + ['call'] + ['edit', 'call'] * (scn['calls'] - 1)
+    else:
+        plan = (['edit'] if scn.get('edit_first') else []) + ['call']
+        if scn.get('refix') and rec is not None:
+            plan += ['refix', 'call']
+        if scn.get('edit_last'):
+            plan += ['edit', 'call']
+    history = []        # what happened to the object so far (facts of a violation)
+    last, n_call = None, 0
+    for step in plan:
+        if step == 'edit':
+            if rnd.random() < 0.2 and n_call:
+                live = copy.deepcopy(live)       # the next call goes to a copy of the object (it carries along what the object keeps)
+                history.append({'kind': 'deepcopy'})
+                feats.append('edit:on-deepcopy')
+            d = L.apply_edit(rnd, live, None if last is None else last.x)
+            history.append(d)
+            feats.append('edit:%s%s' % (d['kind'], (':' + d['how'].split(':')[0]) if d.get('how') else ''))
+            if d.get('interval') is not None and d['interval'] in L.intervals_without_free_variable(live):
+                feats.append('edit:of-interval-without-free-variable')
+            continue
+        if step == 'refix':
+            if last is None:
+                break
+            x_soft = None
+            if pf.is_mip(L.snapshot(live)):
+                try:
+                    rs_ = impl.solve(live, make_soft_problem=True)
+                    x_soft = None if isinstance(rs_, str) else np.asarray(rs_.x, dtype=float)
+                except Exception as e:
+                    feats.append('soft-solver-exception:' + type(e).__name__)
+            try:
+                new, d = L.refix(rnd, rec, np.asarray(last.x, dtype=float), x_soft)
+            except Exception as e:
+                feats.append('refix-setup-error:' + impl.err_class(e))
+                break
+            if new is None:
+                feats.append('refix:' + d)
+                break
+            live = new
+            history.append(dict(d, kind='refix'))
+            feats += ['refix:' + d['which'], 'refix:I-as-' + d['form'], 'refix:x-' + d['mode']]
+            last = None
+            continue
+        # ---- a call
+        snap = L.snapshot(live)
+        if len(snap.c) == 0:
+            feats.append('empty-problem')
+            break
+        n_call += 1
+        mip = pf.is_mip(snap)
+        solver = scn.get('solver')
+        if solver == 'CLARABEL' and mip:
+            solver = 'SCIPY'
+        if solver == 'SCIP' and not mip:
+            solver = None
+        pinned = L.intervals_without_free_variable(live)
+        n_iv = len(getattr(live, 'ops', None) or [live])
+        if pinned:
+            feats.append('call:all-variables-pinned' if len(pinned) == n_iv else 'call:pinned-and-free-intervals')
+        feats += ['call:%d' % n_call, 'mip' if mip else 'lp', 'solver:%s' % solver]
+        try:
+            res = impl.solve(live, solver=solver)
+        except Exception as e:
+            feats.append('solver-exception:' + type(e).__name__)
+            last = None
+            continue
+        ctx = {'solver': str(solver), 'mip': bool(mip), 'stream': scn['stream'], 'call': n_call, 'split': hasattr(live, 'ops'),
+               'intervals_without_free_variable': len(pinned), 'history': list(history)}
+
+        def viol(orc, msg, **facts):
+            r['violations'].append({'oracle': orc, 'detail': 'call %d on the object%s: %s' % (
+                n_call, (' after ' + ', '.join(h['kind'] for h in history)) if history else '', msg), 'facts': dict(facts, **ctx)})
+        if judge_answer(snap, res, viol, feats):
+            r['nontrivial'] = True
+        if n_call > 1 and any(h['kind'] not in ('none', 'deepcopy') for h in history):
+            feats.append('judged-after-change-of-the-problem')
+        last = None if isinstance(res, str) else res
     return r
 
 
